@@ -31,8 +31,7 @@ func (repo *TxRepository) MarkUnsafe(ctx context.Context, txid bitcoin.Hash32) (
 		return true, nil
 	}
 
-	repo.unconfirmed[txid] = newUnconfirmedTx(false, true, false)
-	return true, nil
+	return false, nil // not a tx that was added as relevant
 }
 
 // Mark an unconfirmed tx as being verified by a trusted node.
